@@ -147,6 +147,23 @@ func corpus() []updsim.History {
 		h.Ops = append(h.Ops, fin...)
 		hs = append(hs, h)
 	}
+	// a pts-bearing update that consumes no pts slot (pts_count = 0, pts == local pts: web page / read mark
+	// style) pushed while the sequence is in sync, common and channel: no difference can ever return it,
+	// so the only delivery is the push (seeded change C02-4: a duplicate 'fast path' in checkGap drops it)
+	for _, seq := range []int{0, 2} {
+		cfg := updsim.Config{Base: []int{0, 0, 0}}
+		km, ko := updsim.KMsg, updsim.KOther
+		if seq == 2 {
+			km, ko = updsim.KCMsg, updsim.KCOther
+		}
+		h := updsim.History{Cfg: cfg, Log: []updsim.Entry{E(1, km, seq, 1, 1), E(2, ko, seq, 1, 0), E(3, km, seq, 2, 1)}}
+		v1, v2 := []int{0, 0, 0}, []int{0, 0, 0}
+		v1[seq], v2[seq] = 1, 2
+		h.Ops = []updsim.Op{{K: updsim.OpStartup, Vis: []int{0, 0, 0}}, {K: updsim.OpPush, Vis: v1, Items: []int{1}, CID: 1},
+			{K: updsim.OpPush, Vis: v1, Items: []int{2}, CID: 2}, {K: updsim.OpPush, Vis: v2, Items: []int{3}, CID: 3}}
+		h.Ops = append(h.Ops, updsim.FinalOps(cfg, v2)...)
+		hs = append(hs, h)
+	}
 	// a channel without storage record, tracked by its first pushed update
 	{
 		cfg := updsim.Config{Base: []int{0, 0, 4}, Untracked: []bool{false, false, true}}
